@@ -1,7 +1,7 @@
 /-
 Helper lemmas for C14: every message-level operation of the metadata store model preserves
-`Inv`, and — with a `RemoveScope` that leaves no session of the deleted scope — also
-`SessionsHaveScope`.
+`Inv`, and — with a `RemoveScope` that leaves no session of the deleted scope (the current
+one) — also `SessionsHaveScope`.
 -/
 import PvProofs.Lemmas.MdStoreOps
 
@@ -208,7 +208,7 @@ theorem applyOpWith_inv (rm : State → UUID → State)
   case addNav => exact addNetAssetValues_inv h hr
   case keeperRemoveSession => cases hr; exact removeSession_inv h _
 
-/-! ### `SessionsHaveScope` is preserved by every operation except (the code's) `DeleteScope` -/
+/-! ### `SessionsHaveScope` is preserved by every operation, given a `RemoveScope` that preserves it -/
 
 theorem applyOpWith_shs (rm : State → UUID → State)
     (hrm : ∀ st id sc, PvModel.MdStore.Inv st → SessionsHaveScope st → kget (·.id) st.scopes id = some sc →
@@ -318,7 +318,7 @@ theorem applyOpWith_shs (rm : State → UUID → State)
     exact hs
   case keeperRemoveSession => cases hr; exact removeSession_sessionsHaveScope hs _
 
-/-! ### the proposed fix: `removeScopeFixed` -/
+/-! ### the current `removeScope` (with the repair ab8bb51a7): record walk, then the remaining sessions -/
 
 theorem filterSessions_inv {s : State} (h : PvModel.MdStore.Inv s) (id : UUID)
     (hno : ∀ r ∈ s.records, r.id.scope ≠ id) :
@@ -334,15 +334,15 @@ theorem filterSessions_inv {s : State} (h : PvModel.MdStore.Inv s) (id : UUID)
       have : y.id.scope ≠ id := by rw [hyr, h.recInScope r hr]; exact hno r hr
       simpa using this }
 
-theorem deleteScopeFixed_spec {st : State} (h : PvModel.MdStore.Inv st) (id : UUID) (sc : Scope)
+theorem deleteScope_spec {st : State} (h : PvModel.MdStore.Inv st) (id : UUID) (sc : Scope)
     (hsc : kget (·.id) st.scopes id = some sc) :
-    PvModel.MdStore.Inv (removeNetAssetValues (removeScopeFixed st id) id) ∧
-    ScopeGone (removeNetAssetValues (removeScopeFixed st id) id) id ∧
-    (SessionsHaveScope st → SessionsHaveScope (removeNetAssetValues (removeScopeFixed st id) id)) := by
-  obtain ⟨hinv, hgone, hsess, hrec, hscopes⟩ := deleteScope_spec h id sc hsc
+    PvModel.MdStore.Inv (removeNetAssetValues (removeScope st id) id) ∧
+    ScopeGone (removeNetAssetValues (removeScope st id) id) id ∧
+    (SessionsHaveScope st → SessionsHaveScope (removeNetAssetValues (removeScope st id) id)) := by
+  obtain ⟨hinv, hgone, hsess, hrec, hscopes⟩ := deleteScopePreFix_spec h id sc hsc
   have w := afterWalk_spec h id
-  rw [removeScopeFixed_eq hsc]
-  have hno : ∀ r ∈ (removeNetAssetValues (removeScope st id) id).records, r.id.scope ≠ id := hgone.2.1
+  rw [removeScope_eq hsc]
+  have hno : ∀ r ∈ (removeNetAssetValues (removeScopePreFix st id) id).records, r.id.scope ≠ id := hgone.2.1
   have hI := filterSessions_inv hinv id hno
   refine ⟨hI, ⟨?_, ?_⟩, ?_⟩
   · obtain ⟨g1, g2, g3, g4, g5, g6⟩ := hgone
@@ -354,7 +354,7 @@ theorem deleteScopeFixed_spec {st : State} (h : PvModel.MdStore.Inv st) (id : UU
     obtain ⟨hx1, hx2⟩ := List.mem_filter.mp hx
     have hx2' : x.id.scope ≠ id := by simpa using hx2
     have hx3 : x ∈ st.sessions := by
-      have : x ∈ (removeNetAssetValues (removeScope st id) id).sessions := hx1
+      have : x ∈ (removeNetAssetValues (removeScopePreFix st id) id).sessions := hx1
       rw [hsess] at this
       exact w.sessSub x this
     obtain ⟨y, hy, hyr⟩ := hs x hx3
